@@ -27,7 +27,10 @@ Inductive body :=
 | BJson (status errType errMsg : string) (p : payload).
 
 Inductive response :=
-| RTransport (t : transport_err)          (* http.Client.Do returned an error: no response at all *)
+| RTransport (t : transport_err)          (* http.Client.Do returned an error: no response at all.  (An upstream URI that
+                                              does not parse also ends here since 6f3f221 — doRequest returns the *url.Error,
+                                              no APIError in the chain — but config.Load rejects such a configuration, so no
+                                              accepted configuration reaches it; it is not one of the modelled modes.) *)
 | RHttp (status : Z) (b : body).
 
 (** One upstream of a failover group: its behaviour, the marker its healthy answer carries, and the
